@@ -46,6 +46,7 @@ const (
 	clsLeafTwo         = "C19/leaf/more-than-one-response"
 	clsLeafLostNotLast = "C19/leaf/shard-failure-answered-as-success/failed-stage-not-last"
 	clsLeafLostLast    = "C19/leaf/shard-failure-answered-as-success/failed-stage-last"
+	clsLeafLostUnknown = "C19/leaf/shard-failure-answered-as-success/completion-order-unknown"
 	clsLeafLostRecover = "C19/leaf/shard-failure-answered-as-success/panic-on-request-goroutine"
 	clsLeafLostOther   = "C19/leaf/shard-failure-answered-as-success/other"
 	clsLeafSpurious    = "C19/leaf/error-response-without-failure"
@@ -469,7 +470,7 @@ func newLeafEnv(dir string) (*leafEnv, error) {
 		{Pool: ep.Scanner, stats: metrics.NewConcurrentStatistics(leafDB+"-scanner", linmetric.StorageRegistry)},
 	}
 	env.execP = &tsdb.ExecutorPool{Filtering: env.pools[1], Grouping: env.pools[2], Scanner: env.pools[3]}
-	qcfg := config.Query{QueryConcurrency: 32, IdleTimeout: ltoml.Duration(time.Minute), Timeout: ltoml.Duration(8 * time.Second)}
+	qcfg := config.Query{QueryConcurrency: 32, IdleTimeout: ltoml.Duration(time.Minute), Timeout: ltoml.Duration(2 * time.Hour)} // far away: a request deadline must never decide a case
 	env.handler = query.NewTaskHandler(qcfg, env.fct, processor, taskPool)
 	env.stream = &recStream{
 		ctx:   metadata.NewIncomingContext(context.Background(), metadata.Pairs(constants.RPCMetaKeyLogicNode, leafReceiver)),
@@ -547,7 +548,7 @@ func leafCaseOf(seed int64, idx int, free bool) *leafCase {
 			}
 		}
 	}
-	lc.Paced = r.intn(5) != 0
+	lc.Paced = r.intn(10) != 0
 	return lc
 }
 
@@ -578,6 +579,11 @@ type leafOutcome struct {
 	Quiescent bool                       `json:"quiescent"`
 	Watchdog  string                     `json:"watchdog,omitempty"`
 	Stats     []*commonmodels.StageStats `json:"stage_stats,omitempty"`
+	// Released: the shards whose gate the driver opened while they were parked, in order.  Ordered: the pools had
+	// settled (every other task of the request consumed) before each of these gates was opened, so the stages of a
+	// shard released later completed - including the state machine's count-down - after those of the earlier ones.
+	Released []int `json:"released_in_order,omitempty"`
+	Ordered  bool  `json:"order_is_logical"`
 }
 
 func (e *leafEnv) run(lc *leafCase) *leafOutcome {
@@ -669,10 +675,12 @@ func (e *leafEnv) run(lc *leafCase) *leafOutcome {
 	}
 	pipeline := query.GetPipelineManager().GetPipeline(out.ReqID)
 	if lc.Gated && out.Watchdog == "" {
+		out.Ordered = lc.Paced
 		for _, s := range lc.Release {
 			if !lc.release(s) {
 				continue
 			}
+			out.Released = append(out.Released, s)
 			if lc.Paced {
 				// let the released shard's chain of stages run out before the next gate opens
 				if !e.waitSettled(deadline) {
@@ -706,8 +714,14 @@ func (e *leafEnv) run(lc *leafCase) *leafOutcome {
 		}
 	}
 	lc.mu.Unlock()
-	if n := len(e.stream.responses(out.ReqID)); panicFired || n != 1 {
-		time.Sleep(30 * time.Millisecond)
+	// (no such window exists without a panic: a task is counted as consumed only after its function returned)
+	if n := len(e.stream.responses(out.ReqID)); panicFired && n == 0 {
+		for k := 0; k < 5000 && len(e.stream.responses(out.ReqID)) == 0; k++ {
+			time.Sleep(time.Millisecond)
+		}
+	}
+	if panicFired {
+		time.Sleep(20 * time.Millisecond)
 		if out.Watchdog == "" && !e.waitSettled(deadline) {
 			out.Watchdog = "pools did not settle after the grace period"
 		}
@@ -785,30 +799,45 @@ func judgeLeaf(out *leafOutcome) (vs []viol, facts map[string]int) {
 	switch {
 	case len(failed) > 0:
 		facts["leaf_requests_with_failing_shard"] = 1
-		order, failedLast, known := stageOrder(out)
-		if known && !strings.Contains(order, "=Error") {
-			// the state machine never heard of a failure: not the "forgotten because not last" defect
-			known = false
+		order, _, haveStats := stageOrder(out)
+		toldStateMachine := haveStats && strings.Contains(order, "=Error")
+		// Which stage the state machine counted down last is known only from the schedule the harness enforced: in a
+		// paced request the shard whose gate was opened last ran alone, after every other task had been consumed.
+		// (The end times in the stage stats are taken before the count-down and prove nothing under preemption.)
+		failedSet := map[int]bool{}
+		for _, s := range lc.Shards {
+			if _, ok := out.Fired[s]; ok || (leafSeries[s]+1 > leafLimit && shardScanRan(out, s)) {
+				failedSet[s] = true
+			}
 		}
-		if known {
+		orderKnown := out.Ordered && len(out.Released) == len(lc.Shards) && !hasFired(out, "families-panic")
+		failedLast := false
+		if orderKnown {
+			failedLast = failedSet[out.Released[len(out.Released)-1]]
 			if failedLast {
 				facts["leaf_failing_stage_finished_last"] = 1
 			} else {
 				facts["leaf_failing_stage_not_last"] = 1
 			}
+		} else {
+			facts["leaf_failing_stage_order_unknown"] = 1
 		}
 		if resp.ErrMsg == "" {
 			cls := clsLeafLostOther
 			switch {
 			case hasFired(out, "families-panic"):
 				cls = clsLeafLostRecover
-			case known && !failedLast:
+			case haveStats && !toldStateMachine:
+				cls = clsLeafLostOther // the state machine never heard of a failure: not the "forgotten because not last" defect
+			case !orderKnown:
+				cls = clsLeafLostUnknown
+			case !failedLast:
 				cls = clsLeafLostNotLast
-			case known && failedLast:
+			default:
 				cls = clsLeafLostLast
 			}
 			add(cls, "request %s: %s failed, but the single response carries no error (payload %d bytes): the failure was turned into a successful partial answer; "+
-				"stages in completion order: %s", out.ReqID, strings.Join(failed, ", "), resp.Payload, order)
+				"gates opened in order %v (logical order: %v); stages by recorded end time: %s", out.ReqID, strings.Join(failed, ", "), resp.Payload, out.Released, orderKnown, order)
 		} else {
 			facts["leaf_error_responses"] = 1
 		}
